@@ -131,6 +131,8 @@ def gen_valid_cases(rng, tier):
                     for cbn, tptn in ((0, 0), (1, 0), (0, 1)):
                         if rng.below(3 if tier == "quick" else 1) == 0:
                             out.append((evk, fl, ff, 5 if evk == 2 else 0, isel, cbn, tptn))
+                if evk in (0, 1, 2):    # cb_null == 2: valid add first, then ENABLE with these flags / filter flags
+                    out.append((evk, fl, ff, 5 if evk == 2 else 0, 0, 2, 0))
     return out
 
 
@@ -140,7 +142,7 @@ def must_refuse(case):
         return "unknown flag bits"
     if (fl & 3) == 3:
         return "oneshot+dispatch"
-    if cbn:
+    if cbn == 1:
         return "null callback"
     if tptn:
         return "null thread"
@@ -189,6 +191,12 @@ def check_valid(cases, events, part):
             viol.append(("harness:c06:no-record", str(case)))
             continue
         desc = "event=%d flags=%#x fflags=%#x ident_sel=%d cb_null=%d tpt_null=%d" % (case[0], case[1], case[2], case[4], case[5], case[6])
+        if case[5] == 2:
+            # ENABLE after a valid add: only the refusal of malformed flags / filter flags is judged (one-sided)
+            part["classes"].add(("valid-enable", evk, why or "well-formed", case[1], case[2]))
+            if why and r["rc"] == 0:
+                viol.append(("wrap:tpt_ev_enable:malformed-accepted:%s" % why.replace(" ", "-"), desc))
+            continue
         if why:
             if r["rc"] == 0:
                 viol.append(("wrap:tpt_ev_add:malformed-accepted:%s" % why.replace(" ", "-"), desc))
@@ -249,8 +257,8 @@ def gen_history(rng, tier):
     return steps
 
 
-def encode_history(seed, steps, on_pvt=0, no_wait=0):
-    w = W().u64(seed).u8(3).u8((2 if on_pvt else 0) | (4 if no_wait else 0)).u16(len(steps))
+def encode_history(seed, steps, on_pvt=0, no_wait=0, small_idents=0):
+    w = W().u64(seed).u8(3).u8((2 if on_pvt else 0) | (4 if no_wait else 0) | (8 if small_idents else 0)).u16(len(steps))
     for op, i, k, fl, arg in steps:
         w.u8(op).u8(i).u8(k).u8(fl).u32(arg)
     return w.done()
@@ -360,7 +368,7 @@ def make_jobs(tier, exes):
         steps = gen_history(rng, tier)
         # every fourth history registers its events on the pool virtual thread (single worker); every fifth runs with
         # SIGCHLD ignored, so the exit status of watched children cannot be collected
-        jobs.append(("hist", encode_history(rng.u64(), steps, on_pvt=(i % 4 == 3), no_wait=(i % 5 == 2)), steps, exes))
+        jobs.append(("hist", encode_history(rng.u64(), steps, on_pvt=(i % 4 == 3), no_wait=(i % 5 == 2), small_idents=(i % 3 == 1)), steps, exes))
     return jobs
 
 
